@@ -1421,7 +1421,7 @@ class KInterp:
                 return GExpr.of(1)
             if short in ("empty_like", "empty"):
                 return GExpr.of(UNDEF)
-            if short == "full":
+            if short in ("full", "full_like"):
                 return num(1)
             if short in ("array", "asarray", "nan_to_num", "copy", "squeeze", "int32", "float64", "bool_", "int64"):
                 v = ev(0)
